@@ -39,6 +39,14 @@ CHECKS = {
                 text="Hypotest.tla issues the calls of a hypothesis test one at a time (HypotestDefs.Plan: which POI treatment, which dataset) for all 16 flag sets x {q, qtilde, q0} x {asymptotics, toybased} x prerequisite faults; TLC checks AsimovFromBkgFit, StatisticsOnRightDataset, ToyProtocol, RefusedWithoutFits and the layout facts. Every case is executed on the real hypotest: refusals (UnspecifiedPOI / InvalidModel), identity of each returned entry with the calculator's own CLs+b, CLb, CLs, expected values, and the complete hook trace (every fit with its dataset) is validated by TLC against the plan in the order lane - the Asimov dataset must be exactly Model.expected_data of the recorded background-only (signal for q0) conditional fit, toy datasets exactly make_pdf(conditional fit of the respective hypothesis).sample re-generated under the same seed. On the closed-form families of FitClosed.tla the observed CLs/p0 and the median expected CLs are compared with the analytic asymptotic values.",
                 note="analytic comparison rtol 1e-4 (fit tolerance); band values beyond the median are left to C07; toy reproduction assumes numpy's global generator is consumed only by the two sample() calls",
                 technique="TLA+ protocol machine (TLC) + TLC trace validation of every fit of every hypotest + closed-form replay"),
+    "C14": dict(engine="toys", design="4/C14",
+                text="Empirical.tla is the tail-fraction state machine (samples appended one toy at a time, then an observed value): TLC checks that the coded where/sum/divide equals the exact rational fraction, lies in [0,1], is monotone, counts ties and behaves outside the sample range, and every state is replayed on EmpiricalDistribution.pvalue (flat and column tensors, several backends). The toy-based hypotests of the Hypotest.tla case set are executed for real and their hook traces validated by TLC against TraceHypotest.tla: each toy dataset must be exactly make_pdf(conditional best fit of the respective hypothesis).sample re-generated under the same seed, signal toys first, each followed by its conditional and free fit. Toy estimates of CLs+b and CLb on one-bin counting models are compared with exactly enumerated tail sets (closed-form qtilde, mpmath) within 5 binomial sigma; pseudo-data shape, integrality and non-negativity are checked.",
+                note="the clause on per-bin mean/variance and auxiliary distributions is a statement about the RNG libraries: 6-sigma smoke test only (exploration); toy reproduction relies on numpy's global generator",
+                technique="TLA+ tail-fraction machine (TLC) + TLC validation of toy-protocol traces + exact tail enumeration"),
+    "C16": dict(engine="wsops", design="4/C16",
+                text="WorkspaceOps.tla defines combine (4 joins x merge_channels), prune, rename and sorted twice: as the documented semantics (definition) and as workspace.py does it function by function; MC_WorkspaceOps.tla enumerates workspace pairs (disjoint / identical / conflicting channels, observations, measurements, parameter configs, versions) and operation sequences; TLC checks DisjointKeepsAll (incl. main-term and constrained-parameter set equalities), Refusals, PrimaryWins, PruneExact, RenameInverse, SortedLaws, OutputsValid and ImplEqDef. Every case is replayed on pyhf.Workspace: result JSON or exception class against the definition, inputs deep-compared, outputs schema-validated, and the likelihood clauses on real models (main log-likelihood of a disjoint combine is the sum, constraints once, prune/rename/sorted leave logpdf unchanged).",
+                note="built by a sub-agent under my review; colliding renamings, dangling POI after pruning and parameter-free pruned models are outside the property and skipped (counted)",
+                technique="TLA+ definition vs transcription of workspace.py (TLC) + replay of every state on pyhf.Workspace"),
     "C18": dict(engine="xmlio", design="4/C18",
                 text="XmlIO.tla defines export and import conversions (relative/absolute uncertainties, Lumi/LumiRelErr, NormFactor Val/Low/High, Const names with ROOT prefixes) twice: as the definition demands (RoundTripDef: Import(Export(w)) has the same likelihood terms, POI and constant flags) and as the code does it; MC_XmlIO.tla enumerates a family of exportable workspaces (all modifier types, lumi != 1, fixed parameters, two measurements) and all export/import/clear histories over 2 directories x 2 workspace versions (ImportReadsCurrentFile). Every case and history is replayed on the real file system through writexml/readxml the way json2xml/xml2json call them; the re-imported workspace is compared field by field with the definition and its model's logpdf with the original's at several points assembled by name.",
                 note="ROOT histograms are TH1D (doubles): tolerance 1e-9 relative; fixed bin-wise parameters are outside the exportable family (re-import raises 'confusing rootname', noted as candidate in DESIGN); built by a sub-agent under my review",
@@ -97,6 +105,10 @@ def build():
              "serves_properties": ["C06"], "kind_free_text": "test-statistic case table, closed-form scenarios, trace validation of wiring and exact value"},
             {"name": "hypotest", "path": "spec/HypotestDefs.tla spec/Hypotest.tla spec/TraceHypotest.tla spec/FitClosed.tla harness/checks/c08.py harness/hypotest_replay.py",
              "serves_properties": ["C08"], "kind_free_text": "hypothesis-test protocol machine, trace validation of every fit against the plan, closed-form CLs"},
+            {"name": "toys", "path": "spec/Empirical.tla spec/Hypotest.tla spec/TraceHypotest.tla harness/checks/c14.py harness/toys_replay.py harness/hypotest_replay.py",
+             "serves_properties": ["C14"], "kind_free_text": "empirical tail fraction machine, toy protocol trace validation, exact tails"},
+            {"name": "wsops", "path": "spec/WorkspaceOps.tla spec/MC_WorkspaceOps.tla harness/checks/c16.py harness/wsops_replay.py",
+             "serves_properties": ["C16"], "kind_free_text": "workspace algebra specification (definition + transcription), replay on pyhf.Workspace"},
             {"name": "xmlio", "path": "spec/XmlIO.tla spec/MC_XmlIO.tla harness/checks/c18.py harness/xmlio_replay.py",
              "serves_properties": ["C18"], "kind_free_text": "XML/ROOT conversion and file-cache history specification replayed on the file system"},
             {"name": "backend", "path": "spec/Backend.tla spec/MC_Backend.tla spec/TraceBackend.tla harness/checks/c11.py harness/backend_replay.py harness/tracecheck.py",
